@@ -197,6 +197,23 @@ CarrierZero(c) == CASE c = "string" -> JStr(<<>>) [] c = "bool" -> JBool(FALSE) 
 RECURSIVE TypedOnly(_, _, _, _)
 \* keys of the unit families that differ from a declared property name only by case
 FoldsTo(k) == CASE k = "MY_FIELD" -> "my_field" [] OTHER -> k
+\* every value of d has the JSON type its position declares (C17's scope excludes type errors)
+RECURSIVE TypeClean(_, _, _)
+TypeClean(env, s, d) ==
+  IF d.t = "null" THEN TRUE
+  ELSE IF Has(s, "ref") THEN (~EnvHas(env, s.ref.n) \/ TypeClean(env, EnvGet(env, s.ref.n), d))
+  ELSE IF Has(s, "enum") /\ Len(NonNull(s)) # 1 THEN (\A i \in DOMAIN s.enum : s.enum[i].t \in {"str", "null"}) => d.t = "str"
+  ELSE IF Has(s, "allOf") \/ Has(s, "anyOf") THEN d.t = "obj"
+  ELSE LET T == Main(s) IN
+    CASE T = "boolean" -> d.t = "bool"
+      [] T = "string"  -> d.t \in {"str", "fmt"} /\ (Has(s, "format") /\ s.format \in Formats => d.t = "fmt" /\ d.f = s.format)
+      [] T = "number"  -> d.t \in {"num", "big"}
+      [] T = "integer" -> d.t \in {"num", "big"} /\ IsIntegral(d)
+      [] T = "array"   -> d.t = "arr" /\ (Has(s, "items") => \A i \in DOMAIN d.a : TypeClean(env, s.items, d.a[i]))
+      [] T = "object"  -> d.t = "obj" /\ (\A k \in PropNames(s) \cap ObjKeys(d) : TypeClean(env, PropSchema(s, k), ObjVal(d, k)))
+                          /\ (Has(s, "additionalProperties") /\ s.additionalProperties.k = "s" =>
+                                \A k \in ObjKeys(d) \ PropNames(s) : TypeClean(env, s.additionalProperties.s, ObjVal(d, k)))
+      [] OTHER -> TRUE
 RECURSIVE Valid(_, _, _, _, _, _)
 TypedOnly(env, s, d, D) ==
   IF d.t = "null" THEN TRUE
@@ -226,7 +243,10 @@ Valid(env, s, d, D, ctx, lim) ==
   IF Has(s, "ref") THEN ValidRef(env, s, d, D)
   ELSE IF Has(s, "enum") THEN
          \* null where the enum does not list it: unspecified, like null at any non-nullable position
-         (IF EnumOK(s, d) THEN Acc ELSE IF d.t = "null" THEN Un ELSE Rej)
+         \* deviation "YamlIntInMixedEnum" (YAML path only): yaml.v3 decodes an integral number into an
+         \* interface{} carrier as int, which reflect.DeepEqual never equates with the float64 literal
+         (IF "YamlIntInMixedEnum" \in D /\ Carrier(s) = "iface" /\ d.t = "num" /\ IsIntegral(d) THEN Rej
+          ELSE IF EnumOK(s, d) THEN Acc ELSE IF d.t = "null" THEN Un ELSE Rej)
   ELSE IF Has(s, "allOf") THEN
          \* the tool merges the branches into one struct, so "declared" (for deviation
          \* RequiredUndeclaredIgnored) means declared by ANY branch
